@@ -283,6 +283,30 @@ pub fn like_class(p: &str) -> String {
 }
 
 /// Root-cause diagnosis of a minimal failing filter statement (known engine defects; see DESIGN.md).
+thread_local! {
+    /// Row ranges that were ingested between two flushes of the realisation under test: each becomes (at least part of)
+    /// one partition with its own string dictionary. Empty = treat the table as one range.
+    static LAYOUT_RANGES: std::cell::RefCell<Vec<(usize, usize)>> = const { std::cell::RefCell::new(Vec::new()) };
+}
+
+/// Remember how the table under test was cut into flush groups (used by the dictionary diagnosis below).
+pub fn set_layout(real: &Realisation) {
+    let mut ranges = Vec::new();
+    let mut start = 0;
+    let mut group_start = 0;
+    for (i, rows) in real.splits.iter().enumerate() {
+        start += rows;
+        if real.flush_after.get(i).copied().unwrap_or(false) && start > group_start {
+            ranges.push((group_start, start));
+            group_start = start;
+        }
+    }
+    if start > group_start {
+        ranges.push((group_start, start));
+    }
+    LAYOUT_RANGES.with(|r| *r.borrow_mut() = ranges);
+}
+
 pub fn diagnose(mq: &Q, mode: &str, got: &Result<crate::drive::QOut, crate::drive::QErr>, table: &LTable) -> Option<String> {
     let ann = qcheck::annotate(table);
     let f = mq.filter.as_ref()?;
@@ -319,7 +343,17 @@ pub fn diagnose(mq: &Q, mode: &str, got: &Result<crate::drive::QOut, crate::driv
                 (E::Col(c), E::Str(k)) | (E::Str(k), E::Col(c)) => (c, k),
                 _ => return None,
             };
-            let present = table.cols.get(c).map(|vals| vals.iter().any(|v| matches!(v, V::Str(s) if s == k))).unwrap_or(false);
+            // dictionaries are per partition: the constant has to occur in every flush group that holds strings at all
+            let mut ranges = LAYOUT_RANGES.with(|r| r.borrow().clone());
+            if ranges.is_empty() || ranges.last().map(|r| r.1) != Some(table.len) {
+                ranges = vec![(0, table.len)];
+            }
+            let present = table.cols.get(c).map(|vals| {
+                ranges.iter().all(|(a, b)| {
+                    let slice = &vals[*a..(*b).min(vals.len())];
+                    !slice.iter().any(|v| matches!(v, V::Str(_))) || slice.iter().any(|v| matches!(v, V::Str(s) if s == k))
+                })
+            }).unwrap_or(false);
             if !present {
                 return Some("string_order_comparison_with_constant_absent_from_column".into());
             }
@@ -350,6 +384,7 @@ pub struct Env {
 /// Realise a generated table plus its canonical twin for the capability probe.
 pub fn setup(gt: GenTable, real: &Realisation, rng: &mut Rng, op: &OpCell) -> Env {
     let db = realise(&gt.table, real, op);
+    set_layout(real);
     let canon = canonical_table("canon", &gt.defs, rng);
     let cdb = realise(&canon, &Realisation::single_buffer(canon.len), op);
     let sigs = db.codec_signatures(&gt.table.name).into_iter().map(|(n, s)| (n, s.join("+"))).collect();
